@@ -148,7 +148,7 @@ Lemma f64_as_i64_exact m e n : dec_is m e n -> (I64_MIN <= n <= I64_MAX)%Z -> f6
 Proof.
   intros Hd Hn. unfold f64_as_i64.
   destruct (Z.eqb_spec m 0) as [->|Hm].
-  - unfold dec_is in Hd. destruct (0 <=? e)%Z; [lia|]. symmetry in Hd. apply Z.mul_eq_0 in Hd. destruct Hd as [Hd|Hd]; [lia|].
+  - unfold dec_is in Hd. destruct (Z.leb_spec 0 e) as [He|He]; [lia|]. symmetry in Hd. apply Z.mul_eq_0 in Hd. destruct Hd as [Hd|Hd]; [lia|].
     exfalso. assert (0 < 10 ^ (- e))%Z by (apply Z.pow_pos_nonneg; lia). lia.
   - destruct (Z.ltb_spec 400 e) as [He|He].
     + (* |n| >= 10^400 does not fit i64 *)
